@@ -927,8 +927,10 @@ HXPcloseAID(accrec_t *access_rec)
        If no more references to that, free the record */
 
     if (--(info->attached) == 0) {
+        /* a failed close means buffered data did not reach the external file */
         if (info->file_open)
-            HI_CLOSE(info->file_external);
+            if (HI_CLOSE(info->file_external) == FAIL)
+                ret_value = FAIL;
         free(info->extern_file_name);
         free(info);
         access_rec->special_info = NULL;
